@@ -34,45 +34,51 @@ def install(E):
         if _definitely(E, st, d): return True
         if _definitely(E, st, z3.Not(d)): return False
         raise NeedFork(d)
-    def atoll_bits(bits):
-        def f(E, st, fr, I, A):
-            p = A[0]; i = 0; neg = False
-            def decide(cond):
-                if _definitely(E, st, cond): return True
-                if _definitely(E, st, z3.Not(cond)): return False
-                raise NeedFork(cond)
-            while True:
-                b = E.load(st, p + i, 1)
-                if is_sym(b):
-                    if b.decl().name().startswith('uninit_'): raise Violation('uninit', 'atoi/atoll reads a byte that was never written')
-                    ws = z3.Or(b == 32, z3.And(z3.UGE(b, 9), z3.ULE(b, 13)))
-                    if decide(ws): i += 1; continue
-                    break
-                if b in (32, 9, 10, 11, 12, 13): i += 1; continue
-                break
+    def parse_decimal(E, st, p, bits, unsigned=False):
+        """C decimal parse at p: optional white space, optional sign, digits.  Returns (value, index one past the last digit or 0 if there is no digit)"""
+        i = 0; neg = False
+        def decide(cond):
+            if _definitely(E, st, cond): return True
+            if _definitely(E, st, z3.Not(cond)): return False
+            raise NeedFork(cond)
+        while True:
             b = E.load(st, p + i, 1)
             if is_sym(b):
-                if decide(b == 45): neg = True; i += 1
-                elif decide(b == 43): i += 1
-            elif b in (43, 45): neg = b == 45; i += 1
-            val = 0
-            while True:
-                b = E.load(st, p + i, 1)
-                if not is_digit_c(E, st, b): break
-                d = (b - 48) if not is_sym(b) else z3.ZeroExt(bits - 8, b - 48)
-                val = val * 10 + d
-                if is_sym(val): val = simp(val)
-                i += 1
-                if i > 40: raise Unsupported('decimal string too long')
-            if is_sym(val): return simp(-val if neg else val)
-            v = -val if neg else val
-            if bits == 64: v = max(-(1 << 63), min((1 << 63) - 1, v))          # glibc strtoll/atoll saturate on overflow
-            return mask(v, bits)
+                if b.decl().name().startswith('uninit_'): raise Violation('uninit', 'atoi/atoll/strtol reads a byte that was never written')
+                ws = z3.Or(b == 32, z3.And(z3.UGE(b, 9), z3.ULE(b, 13)))
+                if decide(ws): i += 1; continue
+                break
+            if b in (32, 9, 10, 11, 12, 13): i += 1; continue
+            break
+        b = E.load(st, p + i, 1)
+        if is_sym(b):
+            if decide(b == 45): neg = True; i += 1
+            elif decide(b == 43): i += 1
+        elif b in (43, 45): neg = b == 45; i += 1
+        val = 0; nd = 0
+        while True:
+            b = E.load(st, p + i, 1)
+            if not is_digit_c(E, st, b): break
+            d = (b - 48) if not is_sym(b) else z3.ZeroExt(bits - 8, b - 48)
+            val = val * 10 + d
+            if is_sym(val): val = simp(val)
+            i += 1; nd += 1
+            if i > 40: raise Unsupported('decimal string too long')
+        end = i if nd else 0
+        if is_sym(val): return simp(-val if neg else val), end
+        if unsigned: return mask(-min(val, (1 << 64) - 1) if neg else min(val, (1 << 64) - 1), 64), end          # strtoul: saturates at ULONG_MAX, a minus sign negates in unsigned arithmetic
+        v = -val if neg else val
+        if bits == 64: v = max(-(1 << 63), min((1 << 63) - 1, v))          # glibc strtoll/atoll saturate on overflow
+        return mask(v, bits), end
+    def atoll_bits(bits):
+        def f(E, st, fr, I, A): return parse_decimal(E, st, A[0], bits)[0]
         return f
     S['atoll'] = atoll_bits(64); S['atol'] = atoll_bits(64); S['atoi'] = atoll_bits(32)
     def strtoll(E, st, fr, I, A):
-        if is_sym(A[2]) or A[2] != 10 or A[1] != 0: raise Unsupported('strtoll with endptr/base')
-        return atoll_bits(64)(E, st, fr, I, [A[0]])
+        if is_sym(A[2]) or A[2] != 10: raise Unsupported('strtol with a base other than 10')
+        v, end = parse_decimal(E, st, A[0], 64)
+        if A[1] != 0: E.store(st, A[1], 8, A[0] + end)          # *endptr = first character not consumed (nptr itself if there was no digit)
+        return v
     S['strtoll'] = strtoll; S['strtol'] = strtoll
 
     def fmt_decimal(E, st, v, bits):
@@ -183,6 +189,134 @@ def install(E):
             if b == (c & 0xff): return p + i
         return 0
     S['memchr'] = memchr
+
+    # ------------------------------------------------------------------ further C library pieces a refactoring of the code under test may reach for
+    def galloc(size):
+        a = (E.gbrk + 15) // 16 * 16; E.gbrk = a + size + 32
+        E.gallocs[a] = (size, 'global'); E.gbases.append(a); E.gbases.sort()
+        return a
+    # <ctype.h>: glibc classification / case tables, indexed -128..255 (table_load turns a symbolic index into an ite chain)
+    ISupper, ISlower, ISalpha, ISdigit, ISxdigit, ISspace, ISprint, ISgraph, ISblank, IScntrl, ISpunct, ISalnum = 0x100, 0x200, 0x400, 0x800, 0x1000, 0x2000, 0x4000, 0x8000, 0x1, 0x2, 0x4, 0x8
+    def cls(c):
+        if c < 0 or c > 127: return 0
+        ch = chr(c); f = 0
+        if 'A' <= ch <= 'Z': f |= ISupper | ISalpha | ISalnum
+        if 'a' <= ch <= 'z': f |= ISlower | ISalpha | ISalnum
+        if '0' <= ch <= '9': f |= ISdigit | ISalnum
+        if ch in '0123456789abcdefABCDEF': f |= ISxdigit
+        if ch in ' \t\n\v\f\r': f |= ISspace
+        if ch in ' \t': f |= ISblank
+        if 32 <= c < 127: f |= ISprint
+        if 33 <= c < 127: f |= ISgraph
+        if c < 32 or c == 127: f |= IScntrl
+        if 33 <= c < 127 and not ch.isalnum(): f |= ISpunct
+        return f
+    tb = galloc(384 * 2); tl = galloc(384 * 4); tu = galloc(384 * 4)
+    for k in range(384):
+        c = k - 128
+        v = cls(c)
+        E.gmem[tb + 2 * k] = v & 0xff; E.gmem[tb + 2 * k + 1] = v >> 8
+        lo = c + 32 if 65 <= c <= 90 else c; up = c - 32 if 97 <= c <= 122 else c
+        for i in range(4): E.gmem[tl + 4 * k + i] = ((lo & 0xffffffff) >> (8 * i)) & 0xff; E.gmem[tu + 4 * k + i] = ((up & 0xffffffff) >> (8 * i)) & 0xff
+    pb = galloc(8); pl = galloc(8); pu = galloc(8)
+    for (pp, t, w) in ((pb, tb, 2), (pl, tl, 4), (pu, tu, 4)):
+        for i in range(8): E.gmem[pp + i] = ((t + 128 * w) >> (8 * i)) & 0xff
+    S['__ctype_b_loc'] = lambda E, st, fr, I, A: pb
+    S['__ctype_tolower_loc'] = lambda E, st, fr, I, A: pl
+    S['__ctype_toupper_loc'] = lambda E, st, fr, I, A: pu
+    def ctype_fn(flag):
+        def f(E, st, fr, I, A):
+            c = A[0]
+            if not is_sym(c): return 1 if cls(sext(mask(c, 32), 32)) & flag else 0
+            conds = [c == k for k in range(128) if cls(k) & flag]
+            return simp(z3.If(z3.Or(*conds), z3.BitVecVal(1, 32), z3.BitVecVal(0, 32))) if conds else 0
+        return f
+    for nm, fl in (('isupper', ISupper), ('islower', ISlower), ('isalpha', ISalpha), ('isdigit', ISdigit), ('isxdigit', ISxdigit), ('isspace', ISspace), ('isprint', ISprint), ('isgraph', ISgraph),
+                   ('isblank', ISblank), ('iscntrl', IScntrl), ('ispunct', ISpunct), ('isalnum', ISalnum)): S[nm] = ctype_fn(fl)
+    def tolower(E, st, fr, I, A):
+        c = A[0]
+        if not is_sym(c): return c + 32 if 65 <= c <= 90 else c
+        return simp(z3.If(z3.And(c >= 65, c <= 90), c + 32, c))
+    def toupper(E, st, fr, I, A):
+        c = A[0]
+        if not is_sym(c): return c - 32 if 97 <= c <= 122 else c
+        return simp(z3.If(z3.And(c >= 97, c <= 122), c - 32, c))
+    S['tolower'] = tolower; S['toupper'] = toupper
+    errno_a = galloc(8)
+    S['__errno_location'] = lambda E, st, fr, I, A: errno_a
+    def calloc(E, st, fr, I, A):
+        if is_sym(A[0]) or is_sym(A[1]): raise Unsupported('symbolic calloc size')
+        n = A[0] * A[1]; a = E.alloc(st, n, 'heap'); st.allocs[a] = (st.allocs[a][0], 'malloc')
+        for i in range(n): st.mem[a + i] = 0
+        return a
+    S['calloc'] = calloc
+    def strcpy(E, st, fr, I, A):
+        cs = cchars(E, st, A[1])
+        for i, b in enumerate(cs + [0]): E.store(st, A[0] + i, 1, b)
+        return A[0]
+    S['strcpy'] = strcpy; S['stpcpy'] = lambda E, st, fr, I, A: strcpy(E, st, fr, I, A) + len(cchars(E, st, A[1]))
+    def strncpy(E, st, fr, I, A):
+        if is_sym(A[2]): raise Unsupported('symbolic strncpy length')
+        cs = []
+        for i in range(A[2]):
+            b = E.load(st, A[1] + i, 1)
+            if is_sym(b):
+                if E.feasible(st, b == 0):
+                    if E.feasible(st, b != 0): raise NeedFork(b == 0)
+                    break
+            elif b == 0: break
+            cs.append(b)
+        for i in range(A[2]): E.store(st, A[0] + i, 1, cs[i] if i < len(cs) else 0)
+        return A[0]
+    S['strncpy'] = strncpy
+    def strcat(E, st, fr, I, A):
+        d = cchars(E, st, A[0]); cs = cchars(E, st, A[1])
+        for i, b in enumerate(cs + [0]): E.store(st, A[0] + len(d) + i, 1, b)
+        return A[0]
+    S['strcat'] = strcat
+    def strncat(E, st, fr, I, A):
+        if is_sym(A[2]): raise Unsupported('symbolic strncat length')
+        d = cchars(E, st, A[0]); cs = cchars(E, st, A[1])[:A[2]]
+        for i, b in enumerate(cs + [0]): E.store(st, A[0] + len(d) + i, 1, b)
+        return A[0]
+    S['strncat'] = strncat
+    def sprintf(E, st, fr, I, A):
+        if not hasattr(E, 'fmt'): raise Unsupported('sprintf without the process-environment model')
+        out = E.fmt(E, st, A[1], A, 2)
+        for k, ch in enumerate(out + [0]): E.store(st, A[0] + k, 1, ch)
+        return len(out)
+    S['sprintf'] = sprintf
+    def strtoull(E, st, fr, I, A):
+        if is_sym(A[2]) or A[2] != 10: raise Unsupported('strtoul with a base other than 10')
+        v, end = parse_decimal(E, st, A[0], 64, unsigned=True)
+        if A[1] != 0: E.store(st, A[1], 8, A[0] + end)
+        return v
+    S['strtoul'] = strtoull; S['strtoull'] = strtoull
+    def strrchr(E, st, fr, I, A):
+        cs = cchars(E, st, A[0]); c = A[1] & 0xff if not is_sym(A[1]) else None
+        if c is None or any(is_sym(x) for x in cs): raise Unsupported('symbolic strrchr')
+        r = 0
+        for i, x in enumerate(cs + [0]):
+            if x == c: r = A[0] + i
+        return r
+    S['strrchr'] = strrchr
+    def strstr(E, st, fr, I, A):
+        h = cchars(E, st, A[0]); n = cchars(E, st, A[1])
+        if any(is_sym(x) for x in h + n): raise Unsupported('symbolic strstr')
+        i = bytes(h).find(bytes(n))
+        return A[0] + i if i >= 0 else 0
+    S['strstr'] = strstr
+    def strspn_f(reject):
+        def f(E, st, fr, I, A):
+            s_ = cchars(E, st, A[0]); set_ = cchars(E, st, A[1])
+            if any(is_sym(x) for x in s_ + set_): raise Unsupported('symbolic strspn/strcspn')
+            n = 0
+            for x in s_:
+                if (x in set_) == reject: break
+                n += 1
+            return n
+        return f
+    S['strspn'] = strspn_f(False); S['strcspn'] = strspn_f(True)
     S['isatty'] = lambda E, st, fr, I, A: st.aux.get('isatty', {}).get(A[0], 0)
     S['fileno'] = lambda E, st, fr, I, A: 0
     S['getenv'] = lambda E, st, fr, I, A: 0
